@@ -14,7 +14,7 @@ import z3
 CVC5 = shutil.which("cvc5") or "/usr/bin/cvc5"
 Z3_OLD = "/usr/bin/z3"
 
-STATS = {"z3": [0, 0.0], "cvc5": [0, 0.0], "z3-4.8": [0, 0.0]}
+STATS = {"z3": [0, 0.0], "z3+nl-abstraction": [0, 0.0], "cvc5": [0, 0.0], "z3-4.8": [0, 0.0]}
 FALLBACK = os.environ.get("PYVC_FALLBACK", "1") == "1"
 
 
@@ -43,9 +43,101 @@ def _run_external(cmd, smt2, timeout_s):
             pass
 
 
+MULF = z3.Function("$mul", z3.IntSort(), z3.IntSort(), z3.IntSort())
+
+
+def abstract_nl(assertions):
+    """Replace products of two or more non-constant integer factors by applications of an uninterpreted function
+    (commutative by canonical argument order) and add sound lemmas: interval bounds, sign rules, zero rule.
+    Over-approximation: unsat of the abstraction implies unsat of the original. Returns (assertions, n_products)."""
+    from .intervals import collect_bounds, interval, mul_iv, INF
+    bounds = collect_bounds(assertions)
+    memo = {}
+    ivmemo = {}
+    lemmas = []
+    apps = {}
+
+    def mk(a, b):
+        if a.get_id() > b.get_id():
+            a, b = b, a
+        key = (a.get_id(), b.get_id())
+        if key in apps:
+            return apps[key]
+        app = MULF(a, b)
+        ia, ib = interval(a, bounds, ivmemo), interval(b, bounds, ivmemo)
+        iv = mul_iv(ia, ib) if (abs(ia[0]) != INF and abs(ia[1]) != INF and abs(ib[0]) != INF and abs(ib[1]) != INF) else (-INF, INF)
+        if a.get_id() == b.get_id():
+            iv = (max(0, iv[0]), iv[1])
+            lemmas.append(app >= 0)
+        ivmemo[app.get_id()] = iv
+        if iv[0] != -INF:
+            lemmas.append(app >= int(iv[0]))
+        if iv[1] != INF:
+            lemmas.append(app <= int(iv[1]))
+        lemmas.append(z3.Implies(z3.Or(a == 0, b == 0), app == 0))
+        lemmas.append(z3.Implies(z3.Or(z3.And(a > 0, b > 0), z3.And(a < 0, b < 0)), app > 0))
+        lemmas.append(z3.Implies(z3.Or(z3.And(a > 0, b < 0), z3.And(a < 0, b > 0)), app < 0))
+        lemmas.append(z3.Implies(a == 1, app == b))
+        lemmas.append(z3.Implies(b == 1, app == a))
+        # |a*b| >= |a| when b != 0 (and symmetric)
+        lemmas.append(z3.Implies(z3.And(a >= 0, b >= 1), app >= a))
+        lemmas.append(z3.Implies(z3.And(b >= 0, a >= 1), app >= b))
+        apps[key] = app
+        return app
+
+    def walk(t):
+        k = t.get_id()
+        r = memo.get(k)
+        if r is not None:
+            return r
+        if z3.is_quantifier(t) or not z3.is_app(t) or t.num_args() == 0:
+            memo[k] = t
+            return t
+        ch = [walk(c) for c in t.children()]
+        if z3.is_int(t) and t.decl().kind() == z3.Z3_OP_MUL:
+            const = 1
+            non = []
+            for c in ch:
+                if z3.is_int_value(c):
+                    const *= c.as_long()
+                else:
+                    non.append(c)
+            if len(non) >= 2:
+                non.sort(key=lambda x: x.get_id())
+                acc = non[0]
+                for c in non[1:]:
+                    acc = mk(acc, c)
+                r = acc if const == 1 else acc * const
+                memo[k] = r
+                return r
+        changed = any(c.get_id() != o.get_id() for c, o in zip(ch, t.children()))
+        r = t.decl()(*ch) if changed else t
+        memo[k] = r
+        return r
+
+    out = [walk(a) for a in assertions]
+    return out + lemmas, len(apps)
+
+
 def check_sat(assertions, timeout_ms=10000, want_model=True, fallback=True):
     """Decide satisfiability of the conjunction of `assertions` (z3 BoolRefs)."""
     t0 = time.time()
+    try:
+        simp = [z3.simplify(a, som=False) for a in assertions]
+        abstracted, napps = abstract_nl(simp)
+    except Exception:
+        napps = 0
+    if napps:
+        sa = _mk_solver(max(2000, timeout_ms // 2))
+        for a in abstracted:
+            sa.add(a)
+        ra = sa.check()
+        dta = time.time() - t0
+        STATS.setdefault("z3+nl-abstraction", [0, 0.0])
+        STATS["z3+nl-abstraction"][0] += 1
+        STATS["z3+nl-abstraction"][1] += dta
+        if ra == z3.unsat:
+            return "unsat", None, "z3+nl-abstraction", dta
     s = _mk_solver(timeout_ms)
     for a in assertions:
         s.add(a)
